@@ -771,7 +771,8 @@ impl DrawExecutor {
                 p.push(points[i + x * 2 + 1] + y0);
             }
             self.draw_polyline(&p);
-            i += num_points;
+            // every point takes two entries (x, y)
+            i += num_points * 2;
         }
         self.line_type = old_type;
         self.fill_color = old_color;
